@@ -257,8 +257,29 @@ def execute(scn):
     rne = wp.zeros((2, m.nD), dtype=float)
     derivative.deriv_rne_vel(m, d, rne)  # add mode: +h * d(qfrc_bias)/d(qvel)  (= -h*qDeriv_rne, cf. derivative_test.test_rne_derivative)
     Rn = rne.numpy()
-    derivative.deriv_rne_vel(m, d, d.qLU, flg_subtract=True)  # exactly what implicit() does
-    Aimp = d.qLU.numpy().reshape(2, -1).copy()
+    # the matrix forward.implicit() REALLY factorises: captured from the library's own call of smooth.factor_solve_lu
+    # on a twin Data (implicit() advances the state), so the check follows the code instead of a replica of it
+    from mujoco_warp._src import smooth as _smooth
+
+    d2 = mjw.make_data(mjm, nworld=2)
+    for w, mjd in enumerate(refs):
+      util.copy_state(mjd, d2, world=w)
+    mjw.forward(m, d2)
+    captured = {}
+    orig_lu = _smooth.factor_solve_lu
+
+    def _capture(m_, d_, qLU, *a, **kw):
+      captured["A"] = qLU.numpy().reshape(2, -1).copy()
+      return orig_lu(m_, d_, qLU, *a, **kw)
+
+    _smooth.factor_solve_lu = _capture
+    try:
+      forward.implicit(m, d2)
+    finally:
+      _smooth.factor_solve_lu = orig_lu
+    if "A" not in captured:
+      raise RuntimeError("forward.implicit() did not call smooth.factor_solve_lu: update the capture point")
+    Aimp = captured["A"]
 
   active = {k: False for k in ("act", "pas", "fluid", "bias")}
   any_state = False
